@@ -413,4 +413,128 @@ theorem reorderNode_spec (n : NodeD) (hv : validNode n = true) (hw : catsWired n
       · simpa [orderedNode] using hor'
       · simpa [nodeCasesD] using hcases'
 
+/-! ### the whole document -/
+
+theorem mapE_map_congr {α β : Type} {f : α → Except Err β} {g : α → α} : ∀ (l : List α),
+    (∀ a ∈ l, f (g a) = f a) → mapE f (l.map g) = mapE f l
+  | [], _ => rfl
+  | a :: as, h => by
+    simp only [List.map_cons, mapE, h a (by simp), mapE_map_congr as (fun x hx => h x (by simp [hx]))]
+
+def reorderFlow (f : FlowD) : FlowD := { f with nodes := f.nodes.map reorderNode }
+
+theorem reorderDoc_flows (d : DocD) : (reorderDoc d).flows = d.flows.map reorderFlow := rfl
+
+/-- per-node hypotheses of this part -/
+def NodeWired (n : NodeD) : Prop := validNode n = true ∧ catsWired n = true
+
+theorem loadFlow_reorder (f : FlowD) (hn : ∀ n ∈ f.nodes, NodeWired n) : loadFlow (reorderFlow f) = loadFlow f := by
+  have hmap : mapE loadNode (f.nodes.map reorderNode) = mapE loadNode f.nodes :=
+    mapE_map_congr f.nodes (fun n h => (reorderNode_spec n (hn n h).1 (hn n h).2).1)
+  simp only [loadFlow, reorderFlow, hmap]
+  rfl
+
+theorem load_reorder (d : DocD) (hn : ∀ f ∈ d.flows, ∀ n ∈ f.nodes, NodeWired n) : load (reorderDoc d) = load d := by
+  have hmap : mapE loadFlow (d.flows.map reorderFlow) = mapE loadFlow d.flows :=
+    mapE_map_congr d.flows (fun f hf => loadFlow_reorder f (hn f hf))
+  simp only [load, reorderDoc_flows, hmap]
+  rfl
+
+theorem roundtrip_reorder (d : DocD) (hn : ∀ f ∈ d.flows, ∀ n ∈ f.nodes, NodeWired n) :
+    roundtrip (reorderDoc d) = roundtrip d := by
+  simp only [roundtrip, load_reorder d hn]
+
+theorem allNodes_reorderDoc (d : DocD) : allNodes (reorderDoc d) = (allNodes d).map reorderNode := by
+  simp only [allNodes, reorderDoc_flows, List.map_map]
+  induction d.flows with
+  | nil => rfl
+  | cons f fs ih =>
+    simp only [List.map_cons, List.flatten_cons, List.map_append, ih]
+    rfl
+
+theorem nodeWired_of (d : DocD) (hv : Valid d) (hw : CatsWired d) : ∀ f ∈ d.flows, ∀ n ∈ f.nodes, NodeWired n := by
+  intro f hf n hn
+  have hvf := hv.flows f hf
+  simp only [validFlow, Bool.and_eq_true] at hvf
+  exact ⟨(List.all_eq_true.mp hvf.2) n hn, hw n (mem_allNodes hf hn)⟩
+
+theorem nodeRefsD_reorder (n : NodeD) (h : NodeWired n) : nodeRefsD (reorderNode n) = nodeRefsD n := by
+  obtain ⟨_, _, _, _, hacts, _, hcases⟩ := reorderNode_spec n h.1 h.2
+  rw [nodeRefsD_eq, nodeRefsD_eq, hacts, hcases]
+
+theorem nodeFlowRefsD_reorder (n : NodeD) (h : NodeWired n) : nodeFlowRefsD (reorderNode n) = nodeFlowRefsD n := by
+  obtain ⟨_, _, _, _, hacts, _, _⟩ := reorderNode_spec n h.1 h.2
+  simp only [nodeFlowRefsD, hacts]
+
+theorem map_allNodes_reorder {β : Type} (d : DocD) (φ : NodeD → β) (hn : ∀ n ∈ allNodes d, φ (reorderNode n) = φ n) :
+    (allNodes (reorderDoc d)).map φ = (allNodes d).map φ := by
+  rw [allNodes_reorderDoc, List.map_map]
+  exact List.map_congr_left hn
+
+theorem valid_reorderDoc (d : DocD) (hv : Valid d) (hw : CatsWired d) : Valid (reorderDoc d) := by
+  have hn := nodeWired_of d hv hw
+  have hnw : ∀ n ∈ allNodes d, NodeWired n := by
+    intro n hm
+    obtain ⟨l, hl, hnl⟩ := List.mem_flatten.mp hm
+    obtain ⟨f, hf, rfl⟩ := List.mem_map.mp hl
+    exact hn f hf n hnl
+  have hg : docGroupRefs (reorderDoc d) = docGroupRefs d := by
+    have := map_allNodes_reorder d nodeRefsD (fun n h => nodeRefsD_reorder n (hnw n h))
+    simp only [docGroupRefs, this]
+    rfl
+  have hfp : docFlowRefsPre (reorderDoc d) = docFlowRefsPre d := by
+    have := map_allNodes_reorder d nodeFlowRefsD (fun n h => nodeFlowRefsD_reorder n (hnw n h))
+    have h2 : (reorderDoc d).flows.map (fun f => (f.name, f.uuid)) = d.flows.map (fun f => (f.name, f.uuid)) := by
+      rw [reorderDoc_flows, List.map_map]; rfl
+    simp only [docFlowRefsPre, this, h2]
+    rfl
+  have hfr : docFlowRefs (reorderDoc d) = docFlowRefs d := by
+    simp only [docFlowRefs, hfp]
+    rfl
+  exact {
+    flows := by
+      intro f' hf'
+      rw [reorderDoc_flows] at hf'
+      obtain ⟨f, hf, rfl⟩ := List.mem_map.mp hf'
+      have hvf := hv.flows f hf
+      simp only [validFlow, Bool.and_eq_true] at hvf ⊢
+      refine ⟨hvf.1, ?_⟩
+      simp only [reorderFlow]
+      rw [List.all_eq_true]
+      intro x hx
+      obtain ⟨n, hn', rfl⟩ := List.mem_map.mp hx
+      exact (reorderNode_spec n (hn f hf n hn').1 (hn f hf n hn').2).2.1
+    campaigns := hv.campaigns
+    triggers := hv.triggers
+    fields := hv.fields
+    site := hv.site
+    groupNames := hv.groupNames
+    groupUuids := hv.groupUuids
+    groupsListed := by rw [hg]; exact hv.groupsListed
+    flowRefs := by rw [hfr]; exact hv.flowRefs
+    triggerFlows := by rw [hfp]; exact hv.triggerFlows }
+
+theorem hyps_reorderDoc (d : DocD) (hv : Valid d) (hw : CatsWired d) (hu : UntypedFields d) :
+    OrderedCats (reorderDoc d) ∧ ExitsByCats (reorderDoc d) ∧ UntypedFields (reorderDoc d) := by
+  have hn := nodeWired_of d hv hw
+  have hnw : ∀ n ∈ allNodes d, NodeWired n := by
+    intro n hm
+    obtain ⟨l, hl, hnl⟩ := List.mem_flatten.mp hm
+    obtain ⟨f, hf, rfl⟩ := List.mem_map.mp hl
+    exact hn f hf n hnl
+  refine ⟨?_, ?_, ?_⟩
+  · intro n' hn'
+    rw [allNodes_reorderDoc] at hn'
+    obtain ⟨n, hm, rfl⟩ := List.mem_map.mp hn'
+    exact (reorderNode_spec n (hnw n hm).1 (hnw n hm).2).2.2.2.1
+  · intro n' hn'
+    rw [allNodes_reorderDoc] at hn'
+    obtain ⟨n, hm, rfl⟩ := List.mem_map.mp hn'
+    exact (reorderNode_spec n (hnw n hm).1 (hnw n hm).2).2.2.1
+  · intro n' hn' a ha
+    rw [allNodes_reorderDoc] at hn'
+    obtain ⟨n, hm, rfl⟩ := List.mem_map.mp hn'
+    rw [(reorderNode_spec n (hnw n hm).1 (hnw n hm).2).2.2.2.2.1] at ha
+    exact hu n hm a ha
+
 end Rpft.Document
